@@ -37,6 +37,7 @@ import (
 	"go/types"
 	"os"
 	"reflect"
+	"sort"
 	"unsafe"
 
 	"golang.org/x/tools/go/ssa"
@@ -262,6 +263,7 @@ func inlineFunc(fn *ssa.Function, parent *ssa.Function, policy InlinePolicy) *In
 	nf.Blocks = b.blocks
 	prune(nf)
 	for i := 0; i < 8; i++ {
+		forwardStores(nf)
 		t := thread(nf)
 		prune(nf)
 		simplifyPhis(nf, nil)
@@ -328,7 +330,7 @@ func (b *builder) canExpand(fr *frame, c *ssa.Call) *ssa.Function {
 			if !isD {
 				continue
 			}
-			if i != 0 {
+			if i != 0 && !deferPlaceable(callee, d) {
 				return nil
 			}
 			if _, isBuiltin := d.Call.Value.(*ssa.Builtin); isBuiltin {
@@ -350,6 +352,63 @@ func (b *builder) canExpand(fr *frame, c *ssa.Call) *ssa.Function {
 		return nil
 	}
 	return callee
+}
+
+// deferPlaceable: a defer outside the entry block can be run as a plain call at the function's exits when it is
+// registered at most once (not in a loop) and every exit it can reach is dominated by it — then "was it registered?"
+// has the same answer on every path to that exit.
+func deferPlaceable(fn *ssa.Function, d *ssa.Defer) bool {
+	db := d.Block()
+	// reachable blocks from the defer's block (through successors)
+	reach := map[*ssa.BasicBlock]bool{}
+	var walk func(b *ssa.BasicBlock)
+	walk = func(b *ssa.BasicBlock) {
+		for _, s := range b.Succs {
+			if !reach[s] {
+				reach[s] = true
+				walk(s)
+			}
+		}
+	}
+	walk(db)
+	if reach[db] {
+		return false
+	}
+	for _, blk := range fn.Blocks {
+		for _, in := range blk.Instrs {
+			if _, ok := in.(*ssa.RunDefers); ok && blk != db && reach[blk] && !db.Dominates(blk) {
+				return false
+			}
+		}
+	}
+	return true
+}
+
+// defersAt: the defers of fn registered on every path to the exit rd, in registration order.
+func defersAt(fn *ssa.Function, rd *ssa.RunDefers) []*ssa.Defer {
+	var out []*ssa.Defer
+	rb := rd.Block()
+	for _, blk := range fn.Blocks {
+		if blk != rb && !blk.Dominates(rb) {
+			continue
+		}
+		for _, in := range blk.Instrs {
+			if in == ssa.Instruction(rd) {
+				break
+			}
+			if d, ok := in.(*ssa.Defer); ok {
+				out = append(out, d)
+			}
+		}
+	}
+	sort.SliceStable(out, func(i, j int) bool {
+		bi, bj := out[i].Block(), out[j].Block()
+		if bi == bj {
+			return false // instruction order within a block is kept by the stable sort
+		}
+		return bi.Dominates(bj)
+	})
+	return out
 }
 
 // mayRecover: fn calls the builtin recover directly (only a directly deferred function can stop a panic).
@@ -466,8 +525,9 @@ func (b *builder) frame(fr *frame) {
 				}
 			case *ssa.RunDefers:
 				if fr.inl {
-					for i := len(fr.defers) - 1; i >= 0; i-- {
-						d := fr.defers[i]
+					ds := defersAt(fr.fn, x)
+					for i := len(ds) - 1; i >= 0; i-- {
+						d := ds[i]
 						c := &ssa.Call{Call: d.Call}
 						c.Call.Args = append([]ssa.Value(nil), d.Call.Args...)
 						setUnexported(c, "typ", resultType(d.Call.Signature()))
@@ -1150,6 +1210,11 @@ func thread(fn *ssa.Function) bool {
 					default:
 						simple = false
 					}
+				case *ssa.Store:
+					// a result kept in a local cell (`*err = r`): defines nothing, each threaded copy performs it once
+					if _, isCell := x.Addr.(*ssa.Alloc); !isCell {
+						simple = false
+					}
 				default:
 					simple = false
 				}
@@ -1191,7 +1256,9 @@ func thread(fn *ssa.Function) bool {
 			// values defined in k and used outside k need repair after threading: collect them
 			var defs []ssa.Value
 			for _, in := range k.Instrs[:len(k.Instrs)-1] {
-				defs = append(defs, in.(ssa.Value))
+				if v, ok := in.(ssa.Value); ok {
+					defs = append(defs, v)
+				}
 			}
 			// new blocks: one per decided outcome
 			var fresh [2]*ssa.BasicBlock
@@ -1230,8 +1297,11 @@ func thread(fn *ssa.Function) bool {
 							}
 						}
 					}
-					local[in.(ssa.Value)] = c.(ssa.Value)
 					nb.Instrs = append(nb.Instrs, c)
+					if _, isV := in.(ssa.Value); !isV {
+						continue
+					}
+					local[in.(ssa.Value)] = c.(ssa.Value)
 					pd := perDef[in.(ssa.Value)]
 					pd[o] = c.(ssa.Value)
 					perDef[in.(ssa.Value)] = pd
@@ -1525,6 +1595,94 @@ func simplifyPhis(fn *ssa.Function, keep map[ssa.Instruction]bool) {
 		}
 	}
 	_ = keep
+}
+
+// forwardStores replaces a load of a private local cell by the value stored to it earlier in the same block
+// (`*err = r; t = *err; if t != nil` — a named result spilled because of a defer): the test of an expanded call's
+// result can then be threaded like a direct one. A cell is private when it is only stored to and loaded from.
+func forwardStores(fn *ssa.Function) bool {
+	private := map[*ssa.Alloc]bool{}
+	for _, b := range fn.Blocks {
+		for _, in := range b.Instrs {
+			if a, ok := in.(*ssa.Alloc); ok {
+				private[a] = true
+			}
+		}
+	}
+	for _, b := range fn.Blocks {
+		for _, in := range b.Instrs {
+			var buf [8]*ssa.Value
+			for _, op := range in.Operands(buf[:0]) {
+				a, ok := (*op).(*ssa.Alloc)
+				if !ok {
+					continue
+				}
+				switch x := in.(type) {
+				case *ssa.Store:
+					if x.Addr == ssa.Value(a) && x.Val != ssa.Value(a) {
+						continue
+					}
+				case *ssa.UnOp:
+					if x.Op == token.MUL {
+						continue
+					}
+				case *ssa.DebugRef:
+					continue
+				}
+				delete(private, a)
+			}
+		}
+	}
+	// closures of fn that capture the cell were excluded above (MakeClosure operand)
+	any := false
+	repl := map[ssa.Value]ssa.Value{}
+	for _, b := range fn.Blocks {
+		last := map[*ssa.Alloc]ssa.Value{}
+		var keep []ssa.Instruction
+		for _, in := range b.Instrs {
+			switch x := in.(type) {
+			case *ssa.Store:
+				if a, ok := x.Addr.(*ssa.Alloc); ok && private[a] {
+					v := x.Val
+					if r, ok := repl[v]; ok {
+						v = r
+					}
+					last[a] = v
+				}
+			case *ssa.UnOp:
+				if a, ok := x.X.(*ssa.Alloc); ok && x.Op == token.MUL && private[a] {
+					if v, ok := last[a]; ok {
+						repl[x] = v
+						any = true
+						continue
+					}
+				}
+			}
+			keep = append(keep, in)
+		}
+		b.Instrs = keep
+	}
+	if !any {
+		return false
+	}
+	for _, b := range fn.Blocks {
+		for _, in := range b.Instrs {
+			var buf [8]*ssa.Value
+			for _, op := range in.Operands(buf[:0]) {
+				if r, ok := repl[*op]; ok {
+					for {
+						r2, more := repl[r]
+						if !more {
+							break
+						}
+						r = r2
+					}
+					*op = r
+				}
+			}
+		}
+	}
+	return true
 }
 
 // finish numbers blocks and registers, rebuilds referrers and the dominator tree.
